@@ -35,6 +35,8 @@ type env struct {
 	notif  chan *opcua.PublishNotificationData
 	states []string
 	perH   map[uint32]int64 // notifications per client handle
+	values []int            // values delivered to the application, in order (stream scenarios)
+	target string           // host:port behind the proxy
 }
 
 func setupEnv(gates map[string]map[string]bool) (*env, error) {
@@ -52,24 +54,31 @@ func setupEnv(gates map[string]map[string]bool) (*env, error) {
 	e.ctl.gate = gates
 	e.ctl.register("main")
 	e.ctl.install()
-	go func() {
-		for n := range e.notif {
-			if n.Error != nil {
-				atomic.AddInt64(&e.errs, 1)
-				continue
-			}
-			if dc, ok := n.Value.(*ua.DataChangeNotification); ok {
-				e.mu.Lock()
-				for _, mi := range dc.MonitoredItems {
-					e.perH[mi.ClientHandle]++
-				}
-				e.mu.Unlock()
-				atomic.AddInt64(&e.notifs, 1)
-				e.ctl.note("app", "notif", map[string]any{"sub": n.SubscriptionID})
-			}
-		}
-	}()
+	go e.drain()
 	return e, nil
+}
+
+func (e *env) drain() {
+	for n := range e.notif {
+		if n.Error != nil {
+			atomic.AddInt64(&e.errs, 1)
+			continue
+		}
+		if dc, ok := n.Value.(*ua.DataChangeNotification); ok {
+			e.mu.Lock()
+			for _, mi := range dc.MonitoredItems {
+				e.perH[mi.ClientHandle]++
+				if mi.Value != nil && mi.Value.Value != nil {
+					if v, ok := mi.Value.Value.Value().(int32); ok {
+						e.values = append(e.values, int(v))
+					}
+				}
+			}
+			e.mu.Unlock()
+			atomic.AddInt64(&e.notifs, 1)
+			e.ctl.note("app", "notif", map[string]any{"sub": n.SubscriptionID})
+		}
+	}
 }
 
 func (e *env) newClient(auto bool) error {
